@@ -9,6 +9,9 @@ Cases ==
             p \in {"idle", "ping.send", "ping.recv", "open.recv"}, a \in Afters, dr \in BOOLEAN }
   \cup { [kind |-> "container", point |-> p, sa |-> sa, tree |-> tr, after |-> a, drop |-> dr] :
             p \in ExecPoints, sa \in BOOLEAN, tr \in Trees, a \in Afters, dr \in BOOLEAN }
+  \* the controller dies while Build is still configuring the container (init is inside the configuration
+  \* handler, running the init command): only the parent-death signal can end that
+  \cup { [kind |-> "container", point |-> "conf.init", sa |-> FALSE, tree |-> "il()", after |-> a, drop |-> FALSE] : a \in Afters }
   \cup { [kind |-> k, point |-> "run", sa |-> FALSE, tree |-> tr, after |-> a, drop |-> FALSE] :
             k \in {"ptrace"}, tr \in Trees, a \in Afters \cup {1, 3, 7, 20} }
   \* the controller dies inside the caller's sync callback: the launcher's child is parked before exec
